@@ -117,6 +117,10 @@ fn check_dedup_answer(
 /// hashes and hashes sharing a truncated prefix with present ones.
 fn gen_queries(rng: &mut Rng, xorbs: &BTreeMap<H, RefXorbRec>, n: usize) -> Vec<Vec<H>> {
     let list: Vec<&RefXorbRec> = xorbs.values().filter(|x| !x.chunks.is_empty()).collect();
+    // the xorb stored right after each xorb in a shard holding all of them (records are ordered by hash words)
+    let mut ordered: Vec<&RefXorbRec> = xorbs.values().collect();
+    ordered.sort_by_key(|x| hkey(&x.hash));
+    let next_of: std::collections::HashMap<H, &RefXorbRec> = ordered.windows(2).map(|w| (w[0].hash, w[1])).collect();
     let mut out = Vec::new();
     for _ in 0..n {
         let mut q: Vec<H> = Vec::new();
@@ -126,13 +130,29 @@ fn gen_queries(rng: &mut Rng, xorbs: &BTreeMap<H, RefXorbRec>, n: usize) -> Vec<
             q.push(h);
         } else {
             let x = *rng.pick(&list);
-            let a = rng.usize_below(x.chunks.len());
-            let len = rng.log_range(1, 40) as usize;
+            let follow = rng.chance(1, 3);
+            // start near the end when the query is meant to run over it
+            let a = if follow { x.chunks.len() - 1 - rng.usize_below(x.chunks.len().min(3)) } else { rng.usize_below(x.chunks.len()) };
+            let len = if follow { x.chunks.len() - a + rng.urange(1, 3) } else { rng.log_range(1, 40) as usize };
             for i in 0..len {
                 match x.chunks.get(a + i) {
                     Some(c) => q.push(c.0),
                     None => {
-                        // running past the xorb end: continue with another xorb's chunks or junk
+                        // running past the xorb end: continue with the hash of the *record that follows* in the shard's
+                        // CAS section (the next xorb's header, then its chunks), with another xorb's chunks, or junk
+                        let past = a + i - x.chunks.len();
+                        if follow {
+                            if let Some(nx) = next_of.get(&x.hash) {
+                                if past == 0 {
+                                    q.push(nx.hash);
+                                } else if let Some(c) = nx.chunks.get(past - 1) {
+                                    q.push(c.0);
+                                } else {
+                                    q.push(nx.hash);
+                                }
+                                continue;
+                            }
+                        }
                         let y = *rng.pick(&list);
                         q.push(y.chunks[rng.usize_below(y.chunks.len())].0);
                     },
